@@ -12,6 +12,7 @@ RULE = ('lap scripts over pairs of multisets of NON-EMPTY intervals (empty, disj
         'distinct by case text')
 UNIQUE_NOTE = 'cov_card / ui_card + card_unique: a cardinality is unique'
 EXHAUSTIVE = {}
+CROSSCHECK = True      # thorough tier: a sample is re-evaluated inside Coq against the extracted runner
 
 
 def overlap_inside(ivs):
@@ -41,6 +42,7 @@ def hist(rng, mode, cur, nid, want_merge):
 
 
 def gen(rng, tier):
+    yield from gen_big(rng, tier)
     n = 1200 if tier == 'quick' else 30000
     for _ in range(n):
         mode = G.pick_mode(rng)
@@ -70,6 +72,23 @@ def gen(rng, tier):
                     ops = [['cov']] + opsX + [['ui', G.iv_sx(Y, 100), ['ops'] + opsY], ['cov']]
                     nt = bool(curX) and bool(curY) and share(curX, curY) and ((not ma and overlap_inside(curX)) or (not mb and overlap_inside(curY)))
                     yield Case(G.case(mode, X, ops), nt, mode)
+
+
+def gen_big(rng, tier):
+    """union_and_intersect calls that generate well over a thousand overlapping (self, other) pairs"""
+    for _ in range(3 if tier == 'quick' else 60):
+        nb = rng.choice([250, 300])
+        B = []
+        x = 0
+        for _i in range(nb):
+            x += rng.randint(1, 6); B.append((x, x + rng.randint(3, 12)))
+        A = []
+        for _i in range(rng.choice([100, 120])):
+            s0 = rng.randint(0, x); A.append((s0, s0 + rng.randint(30, 90)))
+        for ma, mb in ((False, False), (True, False), (True, True)):
+            opsB = [['merge']] if mb else []
+            ops = ([['merge']] if ma else []) + [['ui', G.iv_sx(B, 5000), ['ops'] + opsB], ['cov']]
+            yield Case(G.case('medium', A, ops), True, 'big-union')
 
 
 def random_clone(rng):
